@@ -11,7 +11,10 @@ import (
 	"verifharness/hx"
 )
 
-func init() { streams["array"] = arrayStream }
+func init() {
+	streams["array"] = func(c *Config) *hx.Stats { return arrayStreamX(c, "array", false) }
+	streams["persist"] = func(c *Config) *hx.Stats { return arrayStreamX(c, "persist", true) }
+}
 
 // renderStorable renders a storable as "<size>:<desc>".
 func renderStorable(s atree.Storable) string {
@@ -52,6 +55,10 @@ type arrEnv struct {
 	nextPay uint64
 	prog   int
 	step   int
+	// persistence stream (C03): commits, crashes, reopen on a fresh storage
+	persist    bool
+	committed  []hx.TV // content at the last successful commit
+	hasCommit  bool
 }
 
 func (e *arrEnv) violation(prop, what string) {
@@ -174,12 +181,15 @@ func (e *arrEnv) checkReturned(prop string, got atree.Storable, want hx.TV) {
 	}
 }
 
-func arrayStream(cfg *Config) *hx.Stats {
-	st := hx.NewStats("array", cfg.Seed)
-	rng := rand.New(rand.NewSource(cfg.Seed*7919 + 11))
+func arrayStreamX(cfg *Config, name string, persist bool) *hx.Stats {
+	st := hx.NewStats(name, cfg.Seed)
+	rng := rand.New(rand.NewSource(cfg.Seed*7919 + 11 + int64(len(name))))
 	nProg := int(24 * cfg.Scale)
+	if persist {
+		nProg = int(16 * cfg.Scale)
+	}
 	seen := map[string]bool{}
-	w := hx.NewW(filepath.Join(cfg.Out, fmt.Sprintf("array-%d.trace", cfg.Seed)))
+	w := hx.NewW(filepath.Join(cfg.Out, fmt.Sprintf("%s-%d.trace", name, cfg.Seed)))
 	defer w.Close()
 	st.TraceFiles = append(st.TraceFiles, w.Path)
 	thresholds := []uint32{256, 256, 256, 1024, 1024, 512, 257, 511, 32768, 1023}
@@ -192,7 +202,10 @@ func arrayStream(cfg *Config) *hx.Stats {
 		if T >= 16384 {
 			nOps = 150
 		}
-		e := &arrEnv{w: w, st: st, cfg: cfg, rng: rng, T: T, prog: p}
+		e := &arrEnv{w: w, st: st, cfg: cfg, rng: rng, T: T, prog: p, persist: persist}
+		if persist && nOps > 400 {
+			nOps = 400
+		}
 		runArrayProgram(e, nOps, rng.Intn(8), rng.Intn(5), rng.Intn(4))
 		st.Programs++
 		key := fmt.Sprintf("%d/%d", T, e.step)
@@ -229,6 +242,9 @@ func runArrayProgram(e *arrEnv, nOps, sizeProf, posProf, opProf int) {
 	e.st.Dist[fmt.Sprintf("opProf=%d", opProf)]++
 
 	for e.step = 0; e.step < nOps; e.step++ {
+		if e.persist && e.persistStep() {
+			continue
+		}
 		n := len(e.shadow)
 		// choose an operation
 		r := e.rng.Intn(100)
@@ -533,3 +549,119 @@ func (e *arrEnv) iterate(k int) {
 		}
 	}
 }
+
+
+// persistStep occasionally commits, crashes (abandons the in-memory storage) or reopens the array
+// from the ledger on a brand-new storage.  It returns true when it consumed the step.
+func (e *arrEnv) persistStep() bool {
+	w := e.w
+	r := e.rng.Intn(100)
+	commitEvery := []int{4, 8, 15, 40}[e.prog%4]
+	switch {
+	case r < commitEvery:
+		e.ledger.ResetCalls()
+		workers := []int{1, 2, 3, 8}[e.rng.Intn(4)]
+		w.L("COMMIT workers=%d", workers)
+		err := e.ps.FastCommit(workers)
+		w.L("OBS %s", obsErr(err))
+		var parts []string
+		for _, c := range e.ledger.Log {
+			if c.Kind == 'S' {
+				parts = append(parts, "S:"+hx.IDStr(c.ID))
+			} else {
+				parts = append(parts, "R:"+hx.IDStr(c.ID))
+			}
+			if c.ID.AddressAsUint64() == 0 {
+				e.violation("C03", "a slab owned by the temporary address was written to the ledger")
+			}
+		}
+		if len(parts) == 0 {
+			parts = []string{"-"}
+		}
+		w.L("LOG %s", strings.Join(parts, " "))
+		e.ledger.ResetCalls()
+		if err != nil {
+			e.violation("C03", "fault-free commit failed: "+err.Error())
+			return true
+		}
+		e.committed = append([]hx.TV(nil), e.shadow...)
+		e.hasCommit = true
+		// every register, decoded by a brand-new storage using nothing but the ledger
+		fresh := hx.NewStorage(e.ledger)
+		for _, id := range e.ledger.SortedIDs() {
+			s, ok, err := fresh.Retrieve(id)
+			if err != nil || !ok {
+				w.L("REG %s=UNDECODABLE", hx.IDStr(id))
+				e.violation("C03", fmt.Sprintf("register %s does not decode after commit: %v", hx.IDStr(id), err))
+				continue
+			}
+			w.L("REG %s", atree.VerifDumpSlab(s, hx.Describe))
+		}
+		w.L("ENDREG")
+		e.checkReload("after commit", e.shadow)
+		e.st.Hit("persist:commit")
+		return true
+	case r < commitEvery+2 && e.hasCommit:
+		// crash: abandon storage and handle, reopen from the ledger
+		if len(e.ledger.Log) != 0 {
+			e.violation("C03", fmt.Sprintf("the ledger was written outside a commit (%d calls)", len(e.ledger.Log)))
+		}
+		w.L("CRASH")
+		rootID := e.arr.SlabID()
+		e.ps = hx.NewStorage(e.ledger)
+		e.rec = hx.NewRecStorage(e.ps)
+		a, err := atree.NewArrayWithRootID(e.rec, rootID)
+		if err != nil {
+			e.violation("C03", "cannot reopen array after crash: "+err.Error())
+			e.st.HarnessErr = "reopen failed"
+			return true
+		}
+		e.arr = a
+		e.shadow = append([]hx.TV(nil), e.committed...)
+		w.L("FULL h=0 %s", hx.DumpTree(e.ps, atree.VerifArrayRoot(e.arr)))
+		e.checkReload("after crash", e.shadow)
+		e.st.Hit("persist:crash")
+		return true
+	}
+	if len(e.ledger.Log) != 0 {
+		e.violation("C03", fmt.Sprintf("the ledger was written outside a commit (%d calls)", len(e.ledger.Log)))
+		e.ledger.ResetCalls()
+	}
+	return false
+}
+
+// checkReload opens the array on a brand-new storage over the ledger and compares its content
+// with the expected sequence (model-free oracle of C03).
+func (e *arrEnv) checkReload(when string, want []hx.TV) {
+	if !e.hasCommit {
+		return
+	}
+	fresh := hx.NewStorage(e.ledger)
+	a, err := atree.NewArrayWithRootID(fresh, e.arr.SlabID())
+	if err != nil {
+		e.violation("C03", "reload "+when+": "+err.Error())
+		return
+	}
+	want = e.committed
+	if a.Count() != uint64(len(want)) {
+		e.violation("C03", fmt.Sprintf("reload %s: count %d, committed content has %d", when, a.Count(), len(want)))
+		return
+	}
+	i := 0
+	err = a.IterateReadOnly(func(v atree.Value) (bool, error) {
+		if tv, _ := v.(hx.TV); tv != want[i] {
+			e.violation("C03", fmt.Sprintf("reload %s: element %d is %v, committed content says %v", when, i, v, want[i]))
+			return false, nil
+		}
+		i++
+		return true, nil
+	})
+	if err != nil {
+		e.violation("C03", "reload "+when+": iteration failed: "+err.Error())
+	}
+	if ty, ok := a.Type().(hx.TI); !ok || ty != e.tyCommitted() {
+		_ = ty
+	}
+}
+
+func (e *arrEnv) tyCommitted() hx.TI { return e.ty }
